@@ -160,7 +160,7 @@ func relevant(p string, v *runView, line int, fields []string) bool {
 				return true
 			}
 			// a reader that is parked somewhere while the model has it back in Transport.Read: the connection cannot take the next RPC
-			if p == "C06" && strings.HasPrefix(f, "lib.rd_") && strings.Contains(f, `real "blk"`) && strings.Contains(f, `model "tr"`) {
+			if (p == "C06" || p == "C10") && strings.HasPrefix(f, "lib.rd_") && strings.Contains(f, `real "blk"`) && strings.Contains(f, `model "tr"`) {
 				return true
 			}
 		case strings.HasPrefix(f, "hmeta"):
